@@ -250,7 +250,7 @@ def task(name):
         return {'name': name, 'error': traceback.format_exc()[-1500:]}
 
 
-def concrete_violation():
+def concrete_violation(extra_bounds=None):
     warnings.simplefilter('ignore')
     from scipy import stats
     rs = np.random.RandomState(0)
@@ -264,6 +264,14 @@ def concrete_violation():
     u.fit(xu)
     if not (u._params['loc'] == xu.min() and np.isclose(u._params['scale'], xu.max() - xu.min())):
         return True, f'Uniform: {u._params} vs min {xu.min()} range {xu.max() - xu.min()}'
+    for lo_, hi_ in ((-4.0, 11.0), (0, 12), (-6.0, 0), (0.0, 9.5)) + tuple(extra_bounds or ()):
+        data = x if hi_ > 1 else -np.abs(x)
+        data = data[(data > lo_) & (data < hi_)]
+        t = TruncatedGaussian(minimum=lo_, maximum=hi_)
+        t.fit(data)
+        p = t._params
+        if not (np.isclose(p['loc'] + p['a'] * p['scale'], lo_, atol=1e-9) and np.isclose(p['loc'] + p['b'] * p['scale'], hi_, atol=1e-9)):
+            return True, f'TruncatedGaussian(minimum={lo_}, maximum={hi_}) ignores the user bounds: support [{p["loc"] + p["a"] * p["scale"]}, {p["loc"] + p["b"] * p["scale"]}]'
     t = TruncatedGaussian(minimum=-4.0, maximum=11.0)
     t.fit(x)
     p = t._params
